@@ -1,8 +1,119 @@
 import PymtlVerif.Driver.Sexp
-/-! Handler `hier` (stub: not built yet). -/
-namespace PV.Driver.Hier
-open PV
+import PymtlVerif.Model.Hier
+/-!
+Handler `hier`: executable face of `Model/Hier.lean` for the C14 correspondence check.
 
-def handle (_args : List Sexp) : Option String := none
+Requests
+* `hier elab <desc> (<access>*)` — elaborate the description, evaluate the access expressions in
+  order; reply `ok (<rec>*)` (sorted by rendered full name, duplicates removed) or
+  `err FieldReassignError` / `err BadAccess`.
+  `<rec>` = `(full my kind parent level host tls slice toks)`; names are rendered strings, absent = `-`.
+* `hier resolve <desc> (<access>*) <toks>` — evaluate a (possibly non-canonical) expression; reply
+  `ok <rendered canonical name> <isobj>` or `none`.
+* `hier render <toks>` — reply `str <rendered>`.
+
+`<desc>` = `(comp (name sval)*)` | `(ifc (name sval)*)` | `(mport)` | `(sig wire|in|out ty)`;
+`<sval>` = `(one desc)` | `(many sval*)`; `<ty>` = `(bits n)` | `(struct (name fval)*)`;
+`<fval>` = `(one ty)` | `(many fval*)`; `<toks>` = `(tok*)` without the leading `s`,
+`tok` = `(a name)` | `(i n)` | `(s lo hi)`.
+-/
+namespace PV.Driver.Hier
+open PV PV.Hier
+
+mutual
+partial def ty? : Sexp → Option Ty
+  | .list [.atom "bits", n] => do some (.mk (.bits (← n.nat?)) [])
+  | .list (.atom "struct" :: fs) => do
+      let fs ← fs.mapM fun f => match f with
+        | .list [.atom name, v] => do some (name, ← fval? v)
+        | _ => none
+      some (.mk .struct fs)
+  | _ => none
+partial def fval? : Sexp → Option (SVal TTag)
+  | .list [.atom "one", t] => do some (.one (← ty? t))
+  | .list (.atom "many" :: xs) => do some (.many (← xs.mapM fval?))
+  | _ => none
+end
+
+def sigKind? : Sexp → Option SigKind
+  | .atom "wire" => some .wire
+  | .atom "in" => some .inport
+  | .atom "out" => some .outport
+  | _ => none
+
+mutual
+partial def desc? : Sexp → Option Desc
+  | .list (.atom "comp" :: ss) => do some (.mk .comp (← ss.mapM slot?))
+  | .list (.atom "ifc" :: ss) => do some (.mk .ifc (← ss.mapM slot?))
+  | .list [.atom "mport"] => some (.mk .mport [])
+  | .list [.atom "sig", k, t] => do some (.mk (.sig (← sigKind? k) (← ty? t)) [])
+  | _ => none
+partial def slot? : Sexp → Option (String × SVal DTag)
+  | .list [.atom name, v] => do some (name, ← sval? v)
+  | _ => none
+partial def sval? : Sexp → Option (SVal DTag)
+  | .list [.atom "one", d] => do some (.one (← desc? d))
+  | .list (.atom "many" :: xs) => do some (.many (← xs.mapM sval?))
+  | _ => none
+end
+
+def tok? : Sexp → Option Tok
+  | .list [.atom "a", .atom name] => some (.attr name)
+  | .list [.atom "i", n] => do some (.idx (← n.nat?))
+  | .list [.atom "s", lo, hi] => do some (.slice (← lo.nat?) (← hi.nat?))
+  | _ => none
+
+def toks? (x : Sexp) : Option (List Tok) := do (← x.list?).mapM tok?
+
+def accs? (x : Sexp) : Option (List (List Tok)) := do (← x.list?).mapM toks?
+
+def showTok : Tok → String
+  | .root => "(r)"
+  | .attr a => s!"(a {a})"
+  | .idx i => s!"(i {i})"
+  | .slice lo hi => s!"(s {lo} {hi})"
+
+def showPos (p : Pos) : String := render (.root :: p)
+
+def showKind : Kind → String
+  | .comp => "comp" | .ifc => "ifc" | .mport => "mport"
+  | .sig .wire => "wire" | .sig .inport => "in" | .sig .outport => "out"
+
+/-- `my_name` has no leading dot: `name[i]…` -/
+def showMy : Name → String
+  | .attr a :: rest => a ++ String.ofList (renderChars rest)
+  | n => render n
+
+def showRec (r : Rec) : String :=
+  let opt (o : Option String) := o.getD "-"
+  "(" ++ " ".intercalate [render r.full, showMy r.my, showKind r.kind, opt (r.parent.map showPos),
+    opt (r.level.map toString), showPos r.host, opt (r.tls.map showPos),
+    opt (r.slice.map fun (lo, hi) => s!"{lo}:{hi}"),
+    "(" ++ " ".intercalate (r.full.map showTok) ++ ")"] ++ ")"
+
+def sortDedup (xs : List String) : List String :=
+  let sorted := (xs.toArray.qsort (· < ·)).toList
+  sorted.eraseDups
+
+def handle (args : List Sexp) : Option String :=
+  match args with
+  | [.atom "elab", d, accs] => do
+      let d ← desc? d
+      let accs ← accs? accs
+      match elabAll d accs with
+      | .ok items => some ("ok (" ++ " ".intercalate (sortDedup (items.map fun x => showRec x.1)) ++ ")")
+      | .fieldReassign => some "err FieldReassignError"
+      | .badAccess => some "err BadAccess"
+      | .fuel => none
+  | [.atom "resolve", d, ts] => do
+      let d ← desc? d
+      let ts ← toks? ts
+      match resolve d (.root :: ts) with
+      | some (pos, v) => some s!"ok {showPos pos} {b2s v.isObj}"
+      | none => some "none"
+  | [.atom "render", ts] => do
+      let ts ← toks? ts
+      some ("str " ++ render (.root :: ts))
+  | _ => none
 
 end PV.Driver.Hier
